@@ -700,6 +700,8 @@ def patches_from_ed_script(
             if c in ('.\n', '.', b'.\n', b'.'):
                 break
             lines.append(c)
+        else:
+            raise ValueError("end of stream in command: %r" % line)
         yield (first, last, lines)
 
 patchesFromEdScript = function_deprecated_by(patches_from_ed_script)
